@@ -13,6 +13,11 @@ from ..common import V, samples_of, seed_offset
 
 
 def reservoir(which, n):
+    if which == "gas-schedule":  # frac-face pressure stepped down over time
+        res = sim.make_reservoir("single", 15, 4000.0, 8000.0, "T_ship_gas")
+        t = sim.time_grid("quadratic", n, 3.0)
+        res.simulate(t, sim.schedule("stepdown", n, 4000.0, 8000.0, 10.0))
+        return res
     if which == "ideal":
         res = sim.make_reservoir("ideal", 12, 500.0, 5000.0, None)
     else:
@@ -197,6 +202,10 @@ def eval_transform(case):
         if not np.all(ok2[good]):
             viol.append(V("transform/forward-of-inverse", f"transform(inverse(x)) != x at {small[good & ~ok2].tolist()}",
                           case=case))
+    with np.errstate(all="ignore"):
+        twice = np.asarray(inv.inverted().transform_non_affine(keep), dtype=float)
+    if not np.array_equal(twice, np.asarray(s, dtype=float), equal_nan=True):
+        viol.append(V("transform/inverse-of-inverse", "inverted().inverted() is not the square root again", case=case))
     if type(inv).__name__ != "InvertedSquareRootTransform" or type(inv.inverted()).__name__ != "SquareRootTransform":
         viol.append(V("transform/partners", f"inverted() returns {type(inv).__name__} / {type(inv.inverted()).__name__}",
                       case=case))
@@ -224,7 +233,7 @@ def cases(tier, seed):
     everys = [1, 2, 3, 7, n, n + 5] + ([5, 11, 22] if tier == "thorough" else [])
     if seed:
         everys.append(2 + int(17 * seed_offset(seed)))
-    for r, e, rs in itertools.product(["ideal", "gas"], everys, [False, True]):
+    for r, e, rs in itertools.product(["ideal", "gas", "gas-schedule"], everys, [False, True]):
         out.append({"kind": "profiles", "res": r, "n": n, "every": e, "rescale": rs})
     for r, tk, h in itertools.product(["ideal", "gas"], [False, True], [None, "density-first"]):
         out.append({"kind": "recovery", "res": r, "n": n, "ticks": tk, "history": h})
